@@ -83,7 +83,11 @@ type world struct {
 	pan int
 	// skipped: a real-time schedule was overtaken by the clock
 	overtaken bool
+	// abort: the schedule is being abandoned (threads spinning on a lock nobody will release)
+	abort bool
 }
+
+type abortSentinel struct{}
 
 var cur *world
 
@@ -235,6 +239,9 @@ func panicCode(r interface{}) int {
 func (w *world) execOp(o opRec) {
 	defer func() {
 		if r := recover(); r != nil {
+			if _, ok := r.(abortSentinel); ok {
+				return
+			}
 			w.pan = panicCode(r)
 		}
 	}()
@@ -504,7 +511,12 @@ func runC07(inputs []json.RawMessage, tr *tracer) summary {
 			rng := rand.New(rand.NewSource(seed()*1000003 + int64(p.ID)))
 			w := newWorld(&p, false, rng)
 			serf.VerifYield = s.Yield
-			serf.VerifYieldBlocked = s.YieldBlocked
+			serf.VerifYieldBlocked = func(l string) {
+				if w.abort {
+					panic(abortSentinel{})
+				}
+				s.YieldBlocked(l)
+			}
 			tr.reset(*fIDBase+traceID, map[string]interface{}{"prog": p.Threads, "pid": p.ID})
 			traceID++
 			for _, o := range p.Pre {
@@ -521,6 +533,9 @@ func runC07(inputs []json.RawMessage, tr *tracer) summary {
 				s.Go(fmt.Sprintf("t%d", ti), func() {
 					for _, o := range ops {
 						for !w.ready(o) {
+							if w.abort {
+								return
+							}
 							s.YieldBlocked("wait")
 						}
 						begF[ti] = o
@@ -548,8 +563,14 @@ func runC07(inputs []json.RawMessage, tr *tracer) summary {
 			nsteps := 0
 			onStep := func(st sched.Step) {
 				sum["steps"]++
-				if nsteps++; nsteps > 20000 {
-					die("program %d: a schedule exceeded 20000 steps (threads starving each other)", p.ID)
+				if nsteps++; nsteps > 6000 && !w.abort {
+					// threads spinning on a lock that will not be released (e.g. after a panic inside a critical
+					// section): abandon the schedule, what was logged so far stays
+					w.abort = true
+					sum["abandoned"]++
+				}
+				if nsteps > 60000 {
+					die("program %d: a schedule exceeded 60000 steps", p.ID)
 				}
 				if pd != nil && pd.t != st.Thread {
 					flushPd()
@@ -584,7 +605,7 @@ func runC07(inputs []json.RawMessage, tr *tracer) summary {
 				if r.Hung {
 					sum["hung"]++
 				}
-				if !r.Deadlock && !r.Hung {
+				if !r.Deadlock && !r.Hung && !w.abort {
 					// the application reads what is left
 					for k := 1; k <= w.nq; k++ {
 						if w.q[k].resp != nil {
@@ -634,6 +655,8 @@ func explorePrio(sc sched.Scenario, nt, budget int, sd int64) int {
 		s := sched.New()
 		onStep, finish := sc(s)
 		lastT := 0
+		lastRan := map[int]int{}
+		nstep := 0
 		res := s.Run(func(step int, elig []*sched.Thread) int {
 			if cps[step] && lastT != 0 {
 				for i, t := range pr {
@@ -651,7 +674,10 @@ func explorePrio(sc sched.Scenario, nt, budget int, sd int64) int {
 						rank = j
 					}
 				}
-				wait := t.Label == "wait"
+				// a thread that just failed to take a lock, or waits for another one's progress, lets the others
+				// make two steps before it tries again (two such threads would otherwise keep each other
+				// "eligible" for ever while the thread they wait for never runs)
+				wait := (t.Label == "wait" || strings.HasSuffix(t.Label, ":lock")) && step-lastRan[t.ID] < 3
 				if (bestWait && !wait) || (bestWait == wait && rank < bestRank) {
 					best, bestRank, bestWait = i, rank, wait
 				}
@@ -659,6 +685,8 @@ func explorePrio(sc sched.Scenario, nt, budget int, sd int64) int {
 			return best
 		}, -1, func(st sched.Step) {
 			lastT = st.Thread
+			lastRan[st.Thread] = nstep
+			nstep++
 			onStep(st)
 		})
 		finish(res)
